@@ -534,6 +534,8 @@ pub(crate) struct Drained {
     pub dur_sync: core::time::Duration,
     pub dur_delay: core::time::Duration,
     pub dur_receipt: core::time::Duration,
+    /// the (last) sent frame decodes under the library's own parser (set by drain_copy only)
+    pub decodes: bool,
 }
 
 impl Drained {
@@ -604,9 +606,19 @@ pub(crate) fn drain_copy<const N: usize>(mut it: PortActionIterator<'_>, frame: 
                 match &a {
                     PortAction::SendEvent { data, .. } | PortAction::SendGeneral { data, .. } => {
                         len = data.len();
-                        // frame lengths are concrete (wire_size of a body without / with a concrete suffix)
-                        let n = if len < N { len } else { N };
-                        frame[..n].copy_from_slice(&data[..n]);
+                        // byte-by-byte with constant indices (nested loops of 8): a memcpy out of the Port object
+                        // makes CBMC's array post-processing explode (measured > 40 GB)
+                        let mut i = 0;
+                        while i < (N + 7) / 8 {
+                            let mut j = 0;
+                            while j < 8 {
+                                let k = i * 8 + j;
+                                if k < N && k < len { frame[k] = data[k]; }
+                                j += 1;
+                            }
+                            i += 1;
+                        }
+                        d.decodes = crate::datastructures::messages::Message::deserialize(data).is_ok();
                     }
                     _ => {}
                 }
@@ -756,4 +768,8 @@ pub(crate) fn view<L>(p: &Port<'_, L, AcceptTwo, StubRng, RecClock, RecFilter, D
 
 pub(crate) fn set_multiport<L>(p: &mut Port<'_, L, AcceptTwo, StubRng, RecClock, RecFilter, DepthCell>, v: Option<Duration>) {
     p.multiport_disable = v;
+}
+
+pub(crate) fn snapshot_default(s: &Snapshot) -> InternalDefaultDS {
+    s.default_ds
 }
